@@ -333,6 +333,35 @@ func (e *c03env) asOpt(o wop) slog.Opt {
 	return nil
 }
 
+// c03form is one way of issuing a probe record.
+type c03form struct {
+	name  string
+	sev   slog.Level
+	blank bool
+	emit  func(lg *slog.Entry, id string)
+}
+
+var c03forms = func() []c03form {
+	var fs []c03form
+	for _, sev := range probeSevs {
+		sev := sev
+		fs = append(fs, c03form{"LogAttrs", sev, false, func(lg *slog.Entry, id string) { lg.LogAttrs(bg, sev, id) }})
+	}
+	// the same severities through the verbs, and the blank-line forms of Print/Println (one newline byte, Always severity)
+	fs = append(fs,
+		c03form{"Info", slog.InfoLevel, false, func(lg *slog.Entry, id string) { lg.Info(id, "k", 1) }},
+		c03form{"Errorf", slog.ErrorLevel, false, func(lg *slog.Entry, id string) { _ = lg.Errorf("%s", id) }},
+		c03form{"WarnContext", slog.WarnLevel, false, func(lg *slog.Entry, id string) { lg.WarnContext(bg, id) }},
+		c03form{"Println(id)", slog.AlwaysLevel, false, func(lg *slog.Entry, id string) { lg.Println(id) }},
+		c03form{"Print(id)", slog.AlwaysLevel, false, func(lg *slog.Entry, id string) { lg.Print(id) }},
+		c03form{"Println()", slog.AlwaysLevel, true, func(lg *slog.Entry, id string) { lg.Println() }},
+		c03form{"Print(\"\")", slog.AlwaysLevel, true, func(lg *slog.Entry, id string) { lg.Print("") }},
+		c03form{"Print(\" \\n\")", slog.AlwaysLevel, true, func(lg *slog.Entry, id string) { lg.Print(" \n") }},
+		c03form{"PrintContext(\"\\n\")", slog.AlwaysLevel, true, func(lg *slog.Entry, id string) { lg.PrintContext(bg, "\n") }},
+	)
+	return fs
+}()
+
 var probeSevs = []slog.Level{slog.InfoLevel, slog.ErrorLevel, slog.DebugLevel, slog.WarnLevel, slog.TraceLevel, slog.PanicLevel, slog.AlwaysLevel, slog.FatalLevel,
 	slog.OKLevel, slog.FailLevel, slog.SuccessLevel, lvlCustErr, lvlCustPlain, lvlCustGated, slog.Level(88)}
 
@@ -388,13 +417,21 @@ func (e *c03env) runSeq(kind string, viaOpts bool, ops []wop, rp func(k string, 
 // probeAll issues one probe record per severity and compares per-writer counts with the model.
 func (e *c03env) probeAll(lg *slog.Entry, model *wmodel, rp func(k string, n int64)) []c03viol {
 	var out []c03viol
-	for _, sev := range probeSevs {
+	for _, pf := range c03forms {
+		sev := pf.sev
 		e.seq++
 		id := fmt.Sprintf("probe-%d-", e.seq)
 		e.log.Reset()
 		m1, m2 := e.fds.mark()
 		m6 := e.fds.size(e.file6)
-		lg.LogAttrs(bg, sev, id)
+		pf.emit(lg, id)
+		if pf.blank {
+			id = "\n" // a blank Print/Println is delivered as one newline byte and nothing else
+			rp("blank_line_probes", 1)
+		}
+		if pf.name != "LogAttrs" {
+			rp("probes_through_verbs_and_print", 1)
+		}
 		evs := e.log.Events()
 		b1, b2 := e.fds.since(m1, m2)
 		rp("probes", 1)
@@ -405,17 +442,29 @@ func (e *c03env) probeAll(lg *slog.Entry, model *wmodel, rp func(k string, n int
 				if bytes.Contains(ev.Data, []byte("slog print log failed")) {
 					continue // the library's diagnostic about the failing destination (C13's subject)
 				}
-				if !bytes.Contains(ev.Data, []byte(id)) {
+				if !bytes.Contains(ev.Data, []byte(id)) || (pf.blank && string(ev.Data) != id) {
 					out = append(out, c03viol{"foreign-payload", fmt.Sprintf("writer %s received bytes that are not this probe: %s", ev.W, q(clip(string(ev.Data), 200)))})
 					continue
 				}
 				got[ev.W]++
 			}
 		}
-		got[wSTDOUT] = bytes.Count(b1, []byte(id))
-		got[wSTDERR] = bytes.Count(b2, []byte(id))
+		cnt := func(b []byte) int {
+			if !pf.blank {
+				return bytes.Count(b, []byte(id))
+			}
+			n := 0 // blank probe: every line that is not the library's diagnostic about a failing destination counts
+			for _, ln := range bytes.SplitAfter(b, []byte("\n")) {
+				if len(ln) > 0 && !bytes.Contains(ln, []byte("slog print log failed")) {
+					n++
+				}
+			}
+			return n
+		}
+		got[wSTDOUT] = cnt(b1)
+		got[wSTDERR] = cnt(b2)
 		if b6 := e.fds.tail(e.file6, m6); len(b6) > 0 {
-			got["W6"] = bytes.Count(b6, []byte(id))
+			got["W6"] = cnt(b6)
 		}
 		rp("write_events", int64(len(evs)))
 		rp("fallback_bytes", int64(len(b1)+len(b2)))
@@ -444,7 +493,7 @@ func (e *c03env) probeAll(lg *slog.Entry, model *wmodel, rp func(k string, n int
 				ok = true
 			}
 			if !ok {
-				out = append(out, c03viol{"routing", fmt.Sprintf("severity %v(%d): writer %s received the record %d time(s), the configuration denotes %d (selected list %v; observed %v)", sev, int(sev), k, g, w, d.ids, got)})
+				out = append(out, c03viol{"routing", fmt.Sprintf("severity %v(%d) issued by %s: writer %s received the record %d time(s), the configuration denotes %d (selected list %v; observed %v)", sev, int(sev), pf.name, k, g, w, d.ids, got)})
 			}
 		}
 		// LevelSettable: told the severity immediately before each Write
@@ -461,9 +510,9 @@ func (e *c03env) probeAll(lg *slog.Entry, model *wmodel, rp func(k string, n int
 				if e.lvlS[ev.W] {
 					rp("levelsettable_writes", 1)
 					if ls := lastSet[ev.W]; ls == nil {
-						out = append(out, c03viol{"setlevel", fmt.Sprintf("severity %v: LevelSettable destination %s was written to without being told the severity first", sev, ev.W)})
+						out = append(out, c03viol{"setlevel", fmt.Sprintf("severity %v (%s): LevelSettable destination %s was written to without being told the severity first", sev, pf.name, ev.W)})
 					} else if *ls != sev {
-						out = append(out, c03viol{"setlevel", fmt.Sprintf("severity %v: LevelSettable destination %s was told %v before the Write", sev, ev.W, *ls)})
+						out = append(out, c03viol{"setlevel", fmt.Sprintf("severity %v (%s): LevelSettable destination %s was told %v before the Write", sev, pf.name, ev.W, *ls)})
 					}
 				}
 			}
@@ -499,7 +548,7 @@ func (e *c03env) judge(c *Ctx, idx int, kind string, viaOpts bool, ops []wop) {
 	c.R.NonTrivial(kind, fmt.Sprint(viaOpts), opsString(ops))
 	if len(vs) == 0 {
 		if c.R.WantSample() && len(ops) >= 2 {
-			c.R.Sample(idx, map[string]any{"logger": kind, "via_options": viaOpts, "ops": opsString(ops), "writer_shapes": e.shape}, "all 15 probe severities were routed as the model says after every operation")
+			c.R.Sample(idx, map[string]any{"logger": kind, "via_options": viaOpts, "ops": opsString(ops), "writer_shapes": e.shape}, "all 24 probe forms (15 severities through LogAttrs, 5 through verbs and Print/Println, 4 blank-line forms) were routed as the model says after every operation")
 		}
 		return
 	}
